@@ -181,12 +181,34 @@ public:
     if (a->op == NOT) return a->x;
     return intern(NOT, a->w, 0, a, nullptr, nullptr);
   }
+  // opaque (non-diagram) bit-vector operand combined with a diagram: distribute over the diagram's leaves so that the
+  // constant-mask rules below can fire per leaf (vector<bool> style read-modify-write on symbolic bit positions)
+  Node* distribute(Op op, Node* X, Node* M) {
+    if (M->op == CONST) return op == AND ? mkAnd(M, X) : mkOr(M, X);
+    std::vector<uint64_t> vals; leaves(M, vals);
+    if (vals.size() > 66) return nullptr;
+    Node* acc = nullptr;
+    for (uint64_t v : vals) { Node* c = mkConst(M->w, v); Node* r = op == AND ? mkAnd(c, X) : mkOr(c, X); acc = acc ? mkIte(mkCmp(EQ, M, c), r, acc) : r; }
+    return acc;
+  }
   Node* mkAnd(Node* a, Node* b) {
     assert(a->w == b->w);
     if (a->cleaf && b->cleaf) return ddApply2(AND, a, b);
     if (isC(b)) std::swap(a, b);
-    if (isC(a)) { if (a->c == 0) return a; if (a->c == maskw(a->w)) return b; }
+    if (isC(a)) {
+      uint64_t m = a->c;
+      if (m == 0) return a; if (m == maskw(a->w)) return b;
+      if (b->op == AND && isC(b->x)) return mkAnd(mkConst(a->w, m & b->x->c), b->y);
+      if (b->op == OR && isC(b->x)) { uint64_t c2 = b->x->c; return mkOr(mkConst(a->w, m & c2), mkAnd(mkConst(a->w, m & ~c2), b->y)); }
+      if (b->op == SEL) return mkIte(b->x, mkAnd(a, b->y), mkAnd(a, b->z));
+      if (b->op == ZEXT && (m >> b->x->w) == 0 && b->x->w > 1) return mkZext(mkAnd(mkConst(b->x->w, m), b->x), a->w);
+      return intern(AND, a->w, 0, a, b, nullptr);
+    }
     if (a == b) return a;
+    if (a->cleaf && !b->cleaf) { if (Node* r = distribute(AND, b, a)) return r; }
+    if (b->cleaf && !a->cleaf) { if (Node* r = distribute(AND, a, b)) return r; }
+    if (a->op == SEL && b->op != SEL) return mkIte(a->x, mkAnd(a->y, b), mkAnd(a->z, b));
+    if (b->op == SEL && a->op != SEL) return mkIte(b->x, mkAnd(a, b->y), mkAnd(a, b->z));
     if (a->id > b->id) std::swap(a, b);
     return intern(AND, a->w, 0, a, b, nullptr);
   }
@@ -194,8 +216,19 @@ public:
     assert(a->w == b->w);
     if (a->cleaf && b->cleaf) return ddApply2(OR, a, b);
     if (isC(b)) std::swap(a, b);
-    if (isC(a)) { if (a->c == 0) return b; if (a->c == maskw(a->w)) return a; }
+    if (isC(a)) {
+      uint64_t m = a->c;
+      if (m == 0) return b; if (m == maskw(a->w)) return a;
+      if (b->op == OR && isC(b->x)) return mkOr(mkConst(a->w, m | b->x->c), b->y);
+      if (b->op == AND && isC(b->x) && (b->x->c & m)) return mkOr(a, mkAnd(mkConst(a->w, b->x->c & ~m), b->y));
+      if (b->op == SEL) return mkIte(b->x, mkOr(a, b->y), mkOr(a, b->z));
+      return intern(OR, a->w, 0, a, b, nullptr);
+    }
     if (a == b) return a;
+    if (a->cleaf && !b->cleaf) { if (Node* r = distribute(OR, b, a)) return r; }
+    if (b->cleaf && !a->cleaf) { if (Node* r = distribute(OR, a, b)) return r; }
+    if (a->op == SEL && b->op != SEL) return mkIte(a->x, mkOr(a->y, b), mkOr(a->z, b));
+    if (b->op == SEL && a->op != SEL) return mkIte(b->x, mkOr(a, b->y), mkOr(a, b->z));
     if (a->id > b->id) std::swap(a, b);
     return intern(OR, a->w, 0, a, b, nullptr);
   }
